@@ -58,9 +58,9 @@ def c19(pid, tier, replay):
     else:
         scen = []
         runs = [("seq", dict(Cap=2, Ifaces='{"a", "b"}', Masks="{1, 3}", AllMasks="FALSE", Changes="{1, 2}", Depth=5 if thorough else 4, MaxSubs=2,
-                             MaxBatchLen=2), True),
+                             MaxBatchLen=2, EmitMod=23 if thorough else 1), True),
                 ("masks", dict(Cap=8, Ifaces='{"a", "b"}', Masks="{}", AllMasks="TRUE", Changes="{1, 2, 4, 8, 16, 32, 64}", Depth=2, MaxSubs=1,
-                               MaxBatchLen=1), False)]
+                               MaxBatchLen=1, EmitMod=1), False)]
         for name, c, emit in runs:
             cfg = os.path.join(tmp, "WMC_%s.cfg" % name)
             _tlc_cfg(cfg, "MSpec", c, "Bounded OnlyAsked ClosedIffEnded NoFlag" + (" Emit" if emit else ""))
